@@ -37,6 +37,8 @@ func init() {
 			{ID: "C03.R15", Floor: 1, Run: relationAssertUnwrapped, Text: "relation filters are looked at unwrapped: a function that tests its Filter parameter for *RelationFilter has handled the *CachedFilter wrapper first, on a branch that never reaches the relation test"},
 			{ID: "C03.R16", Floor: 2, Run: queryIntParamsRangeChecked, Text: "int arguments of query methods are not truncated: in Query methods an int parameter reaches a conversion to a 32-bit type only under a known upper bound ≤ MaxUint32 (dominating comparison or clamp): Step(k) and EntityAt(i) do not act on k, i modulo 2^32"},
 			{ID: "C03.R17", Floor: 4, Run: filterCtorsVerbatim, Text: "logic-filter constructors store their operands unchanged (= C04.R6)"},
+			{ID: "C03.R18", Floor: 1, Run: noNarrowParamSums, Text: "sums with caller-supplied values are at least 64 bits wide in Query methods: a uint32 sum of the current row and the step wraps, so Step(k) lands on an entity where k calls of Next would have exhausted the query"},
+			{ID: "C03.R19", Floor: 10, Run: freshRelationFilterPerCall, Text: "generic FilterN.Filter hands out a relation filter of its own for a per-call target (= C18.R22): an open query keeps the target it was built with"},
 		},
 	})
 }
